@@ -19,7 +19,7 @@ LEVEL_NOTE = ("Trusted: Lean kernel (+ propext/Classical.choice/Quot.sound), ker
               "(tied by differential correspondence only), CPython slice semantics as transcribed in Spec/Py.lean (validated against "
               "CPython on every case). Ragged boolean-mask indexing and (int, list)/(list, list) element access are correspondence-only.")
 TECHNIQUE = "Lean 4 proof over kernels translated from source each run + model/implementation correspondence"
-DESIGN_REF = "6.2"
+DESIGN_REF = "7"
 LEAN_MODULES = ["NpsVerif.Props.C02Kernels", "NpsVerif.Props.C02Gather", "NpsVerif.Props.C02GetItem"]
 KERNELS = ("view2_ends", "calc_lengths", "pos_col_slice", "col_slice_slice", "col_slice_int")
 RULE = ("cases = ragged array (exhaustive row-length vectors <=3 rows x <=3 cells, plus random larger ones; cells are distinct) x "
@@ -39,7 +39,7 @@ def cases(rng, tier):
     out = []
     def add(lens, idx, dt=None, variant=None):
         out.append({"lens": lens, "idx": idx, "dtype": dt or rng.choice(["int64", "int64", "int32", "uint8", "float64", "bool", "int8", "uint64", "float32", "int16", "uint16", "uint32"]),
-                    "vseed": rng.randint(0, 999), "variant": rng.randint(0, 11) if variant is None else variant})
+                    "vseed": rng.randint(0, 999), "variant": rng.randint(0, 29) if variant is None else variant})
     shapes = gens.shapes_exhaustive(3, 3)
     if tier == "thorough":
         shapes = gens.shapes_exhaustive(4, 3)
